@@ -46,14 +46,62 @@ def parse_where(where, files):
     return out
 
 
+BASE_SHA_FILE = '/root/.vp/repo_root_sha'
+_oldsrc_cache = {}
+
+
+def _base_source(relfile):
+    """Lines of the file at the commit the anchors' line numbers refer to."""
+    if relfile in _oldsrc_cache:
+        return _oldsrc_cache[relfile]
+    lines = None
+    try:
+        import subprocess
+        sha = open(BASE_SHA_FILE).read().strip() if os.path.exists(BASE_SHA_FILE) else None
+        if not sha:
+            sha = subprocess.run(['git', '-C', '/repo', 'rev-list', '--max-parents=0', 'HEAD'], capture_output=True,
+                                 text=True, timeout=20).stdout.split()[0]
+        out = subprocess.run(['git', '-C', '/repo', 'show', f'{sha}:{relfile}'], capture_output=True, text=True, timeout=20)
+        if out.returncode == 0:
+            lines = out.stdout.splitlines()
+    except Exception:
+        lines = None
+    _oldsrc_cache[relfile] = lines
+    return lines
+
+
+def map_range(relfile, absfile, lo, hi):
+    """Anchored line numbers refer to the pinned snapshot; the tree may have
+    moved since (fix: commits).  Map [lo, hi] to the current file's lines."""
+    old = _base_source(relfile)
+    try:
+        new = open(absfile).read().splitlines()
+    except OSError:
+        return set()
+    if old is None or old == new:
+        return set(range(lo, hi + 1))
+    import difflib
+    sm = difflib.SequenceMatcher(a=old, b=new, autojunk=False)
+    out = set()
+    for a, b, n in sm.get_matching_blocks():
+        for k in range(n):
+            if lo <= a + k + 1 <= hi:
+                out.add(b + k + 1)
+    return out
+
+
 class AnchorCoverage:
     def __init__(self, prop, repo):
         rec = load_property(prop)
-        self.mech = []           # (name, [(absfile, lo, hi)])
+        self.mech = []           # (name, [(absfile, set(current lines))])
         self.files = set()
         files = rec['anchors']['files']
         for m in rec['anchors']['mechanism']:
-            rs = [(os.path.join(repo, f), lo, hi) for f, lo, hi in parse_where(m.get('where', ''), files)]
+            rs = []
+            for f, lo, hi in parse_where(m.get('where', ''), files):
+                absf = os.path.join(repo, f)
+                lines = map_range(f, absf, lo, hi) if f.endswith('.py') else set()
+                rs.append((absf, lines, hi - lo + 1))
             self.mech.append((m['name'], rs))
             for f, _, _ in rs:
                 if f.endswith('.py'):
@@ -98,12 +146,12 @@ class AnchorCoverage:
             reached = 0
             span = 0
             pyx = False
-            for f, lo, hi in rs:
+            for f, lines, n in rs:
                 if not f.endswith('.py'):
                     pyx = True
                     continue
-                span += hi - lo + 1
-                reached += len([ln for ln in self.hit.get(f, ()) if lo <= ln <= hi])
+                span += n
+                reached += len(lines & self.hit.get(f, set()))
             out.append({'mechanism': name, 'lines_reached': reached,
                         'lines_in_ranges': span, 'has_pyx_anchor': pyx,
                         'python_ranges': len([1 for f, _, _ in rs if f.endswith('.py')])})
